@@ -1764,6 +1764,57 @@ func dischargeIndexWith(c *Ctx, s *indexSite, inherited int64) (string, string, 
 			}
 			return cls, fmt.Sprintf("len ≥ %s", need), true
 		}
+		// counted by ≠: the index is a variable that starts at 0 and goes up by one on every way round its loop, each
+		// of which stands under "index ≠ len(x)" — so index ≤ len(x) always, and here, under the same test, index < len(x)
+		if phi, ok := s.Index.(*ssa.Phi); ok && isLoopHeaderPhi(phi) {
+			neLen := func(bb *ssa.BasicBlock) bool {
+				for _, fa := range ff.At(bb) {
+					bo, ok := fa.Cond.(*ssa.BinOp)
+					if !ok {
+						continue
+					}
+					rel, okR := relOf(bo.Op, fa.Val)
+					if !okR || rel != token.NEQ {
+						continue
+					}
+					for _, pr := range [][2]ssa.Value{{bo.X, bo.Y}, {bo.Y, bo.X}} {
+						if pr[0] != ssa.Value(phi) {
+							continue
+						}
+						if a, isLen := lenArg(pr[1]); isLen && (a == s.X || sameValue(a, s.X)) {
+							return true
+						}
+					}
+				}
+				return false
+			}
+			okShape := neLen(b)
+			hdr := phi.Block()
+			for i, e := range phi.Edges {
+				pred := hdr.Preds[i]
+				if hdr.Dominates(pred) {
+					t := termOf(e)
+					if t.base != ssa.Value(phi) || t.k != 1 || !neLen(pred) {
+						okShape = false
+					}
+				} else if k, isK := constInt(e); !isK || k != 0 {
+					okShape = false
+				}
+			}
+			// x itself does not change round the loop: a value defined outside it (or a string)
+			if in, isIns := s.X.(ssa.Instruction); isIns && hdr.Dominates(in.Block()) && in.Block() != hdr {
+				if _, isPhiX := s.X.(*ssa.Phi); isPhiX {
+					okShape = false
+				}
+			}
+			if okShape {
+				if ok2, why := checkKey(); ok2 || hasStatic {
+					return "I9", fmt.Sprintf("%s starts at 0, goes up by one only under %s ≠ len, and is tested ≠ len here", phiName(phi), phiName(phi)), true
+				} else {
+					_ = why
+				}
+			}
+		}
 		return "", fmt.Sprintf("no dominating fact len(%s) ≥ %s", key, need), false
 	case "slice":
 		// 0 ≤ lo ≤ hi ≤ len
